@@ -816,3 +816,61 @@ def r9_16(rep):
     from engine import KeyFilter
     import c13
     c13.r13_5(KeyFilter(rep, lambda k: "allowlisted_" in k or "blocklisted_" in k))
+
+
+@RULES.rule("R9.17", "the name a pattern is matched against is the declaration's C/C++ name", floor=2)
+def r9_17(rep):
+    """`path_for_allowlisting` is `compute_path(ctx, UserMangled::No)`: the name without what the user's `item_name` callback does to
+    it.  Whatever else `real_canonical_name` does to the name is also done to the matched string: it ends in `ctx.rust_mangle(..)`
+    unconditionally, so `int match;` is only reached by `--allowlist-var match_`, and it prepends the `--c-naming` prefix, so
+    `struct foo` needs `--allowlist-type struct_foo`.  Per rewriting step of `real_canonical_name` (rust_mangle, the c_naming prefix,
+    the callback): it sits under a test of `opt.user_mangled`, i.e. it is not applied to the allowlisting name."""
+    import qq
+    prog = rep.prog
+    b = rep.need(prog.fn("ir::item::Item::real_canonical_name"), "fn Item::real_canonical_name")
+    steps = []
+    for c in b.calls(lambda x: x["k"] == "MCall"):
+        cal = (c.get("resolved") or c.get("callee") or "")
+        if cal.endswith("BindgenContext::rust_mangle"):
+            steps.append(("rust_mangle", c))
+        elif c["name"] == "insert" and "c_naming_prefix" in " ".join(b.canon(b.local_init(x["id"]), 6) if x["k"] == "Local" and b.local_init(x["id"]) is not None
+                                                                    else b.canon(x, 4) for x in b.walk(c)) + " ".join(a for a, _, _ in qq.guard_atoms(b, c)):
+            steps.append(("c_naming-prefix", c))
+        elif cal.endswith("ParseCallbacks::item_name") or c["name"] == "item_name":
+            steps.append(("item_name-callback", c))
+    seen = {s for s, _ in steps}
+    rep.need({"rust_mangle", "item_name-callback"} <= seen, "the rewriting steps of real_canonical_name (found %s)" % sorted(seen))
+    for nm, c in steps:
+        # the callback sits inside a closure: take the guards of the enclosing closure expression as well
+        import itertools
+        import c08
+        f = c08._reach(b, c)
+        for anc in b.ancestors(c):
+            if anc["k"] == "Closure":
+                f = ("and", f, c08._reach(b, anc))
+        atoms = sorted(c08._atoms(f, set()))
+
+        def under_no(a):
+            """truth of an atom about `user_mangled` when the allowlisting name (UserMangled::No) is computed"""
+            if "user_mangled" not in a or ("==" not in a and "!=" not in a):
+                return None
+            yes = "UserMangled::Yes" in a
+            no = "UserMangled::No" in a
+            if yes == no:
+                return None
+            v = no
+            return v if "==" in a else not v
+        fixed = {a: under_no(a) for a in atoms if under_no(a) is not None}
+        free = [a for a in atoms if a not in fixed]
+        ok = bool(fixed)
+        if ok:
+            for vals in itertools.product((False, True), repeat=len(free)):
+                env = dict(zip(free, vals))
+                env.update(fixed)
+                if c08._ev(f, env):
+                    ok = False
+                    break
+        rep.check(ok, "allowlisting-name-untouched-by:%s@real_canonical_name" % nm,
+                  "only applied to the emitted name (under a test of `opt.user_mangled`)" if ok else
+                  "`%s` is applied to the allowlisting name too: the pattern has to be written for the rewritten name, not for the "
+                  "C/C++ one (`int match;` needs `--allowlist-var match_`; with --c-naming `struct foo` needs `struct_foo`)" % nm, b.loc(c))
